@@ -319,6 +319,31 @@ func (m *Model) ruleFEEDSTART(r *Results) {
 					c.cutBlock(b)
 				}
 				if call, ok := ins.(ssa.CallInstruction); ok {
+					// a closure handed to a higher-order helper that runs it (a lock helper): as if called here
+					for _, e := range m.calleesOf(fn) {
+						if e.Site != call || !e.Lexical || e.IsGo {
+							continue
+						}
+						g := e.Callee
+						for _, gb := range g.Blocks {
+							for _, gi := range gb.Instrs {
+								if registersOrEnds(g, gi) {
+									uncond := gb == g.Blocks[0]
+									if !uncond {
+										uncond = true
+										for _, ret := range returnsOf(g) {
+											if !(gb == ret.Block() || gb.Dominates(ret.Block())) {
+												uncond = false
+											}
+										}
+									}
+									if uncond {
+										c.cutBlock(b)
+									}
+								}
+							}
+						}
+					}
 					if callee := call.Common().StaticCallee(); callee != nil && m.inPkg(callee) && callee != loopFn {
 						if _, isGo := call.(*ssa.Go); isGo {
 							continue
